@@ -233,6 +233,26 @@ fn main() {
                     }
                     _ => "bad-op".into(),
                 },
+                ["clonefrom", i] => match i.parse::<usize>() {
+                    Ok(k) if k < c.pool.len() => {
+                        let cur = c.cur;
+                        if k == cur {
+                            "ok".into()
+                        } else {
+                            // two distinct pool slots: borrow them disjointly
+                            let (lo, hi) = c.pool.split_at_mut(cur.max(k));
+                            let (dst, src): (&mut Box<dyn Obj>, &Box<dyn Obj>) =
+                                if cur < k { (&mut lo[cur], &hi[0]) } else { (&mut hi[0], &lo[k]) };
+                            let r = catch_unwind(AssertUnwindSafe(|| dst.clone_from_dyn(src.as_any())));
+                            match r {
+                                Ok(true) => "ok".into(),
+                                Ok(false) => "bad-op".into(),
+                                Err(_) => "panic".into(),
+                            }
+                        }
+                    }
+                    _ => "bad-op".into(),
+                },
                 ["dcalls"] => format!("dcalls {}", toy::D_CALLS.load(std::sync::atomic::Ordering::Relaxed)),
                 ["table"] => logged::table_line(),
                 _ => {
